@@ -33,7 +33,7 @@ def main():
         tier = 'quick'
     mod = importlib.import_module('prop_' + prop.lower())
     # remove stale replay files of this property
-    rd = os.path.join(common.VERIF, 'replay')
+    rd = os.path.join(common.out_root(), 'replay')
     if os.path.isdir(rd):
         for fn in os.listdir(rd):
             if fn.startswith(prop + '-'):
